@@ -13,6 +13,8 @@ for m in sorted((V / "seeded").glob("*/meta.json")):
 table = "| seeded change | property | what was changed | caught by (own check) | also fires | first contact |\n|---|---|---|---|---|---|\n" + "\n".join(rows)
 p = V / "DESIGN.md"
 s = p.read_text()
-s = re.sub(r"<!-- CATCH-MATRIX-BEGIN -->.*<!-- CATCH-MATRIX-END -->", "<!-- CATCH-MATRIX-BEGIN -->\n" + table + "\n<!-- CATCH-MATRIX-END -->", s, flags=re.S)
+a = s.index("<!-- CATCH-MATRIX-BEGIN -->")
+b = s.index("<!-- CATCH-MATRIX-END -->")
+s = s[:a] + "<!-- CATCH-MATRIX-BEGIN -->\n" + table + "\n" + s[b:]
 p.write_text(s)
 print(len(rows), "rows")
